@@ -932,7 +932,28 @@ fn gen_case(rng: &mut Rng, undeclared: bool, thorough: bool) -> Case {
                 let l = rng.range(1, 4) as usize;
                 ops.push(Op::PortWrite(0, rng.below(n_mem as u64) as i64, rng.bytes(l)));
             }
-            82..=84 => ops.push(Op::ClearCache),
+            82..=83 => ops.push(Op::ClearCache),
+            84 | 96 | 97 => {
+                // selector switching: the same register read at two addresses, interleaved
+                let sel_regs: Vec<usize> = regs.iter().copied().filter(|i| matches!(&nodes[*i], NodeSpec::Reg(r) if r.sel.is_some())).collect();
+                if let Some(&rn) = sel_regs.get(rng.below(sel_regs.len().max(1) as u64) as usize) {
+                    let sn = match &nodes[rn] {
+                        NodeSpec::Reg(r) => r.sel.unwrap().0,
+                        _ => unreachable!(),
+                    };
+                    let read = |rng: &mut Rng| if valued.contains(&rn) && rng.chance(2, 3) { Op::Value(rn) } else { gen_read(rng, &nodes, rn) };
+                    let (k1, k2) = (rng.below(4) as i64, rng.below(4) as i64);
+                    ops.push(Op::SetValue(sn, ValS::Int(k1)));
+                    ops.push(read(rng));
+                    ops.push(Op::SetValue(sn, ValS::Int(k2)));
+                    ops.push(read(rng));
+                    if rng.bool() {
+                        ops.push(if valued.contains(&rn) { gen_set_on(rng, &nodes, rn) } else { gen_write(rng, &nodes, rn) });
+                    }
+                    ops.push(Op::SetValue(sn, ValS::Int(k1)));
+                    ops.push(read(rng));
+                }
+            }
             85..=95 => {
                 // (read A, write B, read A) with B = A or another register
                 let a = *rng.pick(&valued);
